@@ -98,7 +98,7 @@ func diffFields(o observation, p *panicInfo, accepts []expectation) (fields []st
 		}
 		if o.Body != e.Body {
 			f = append(f, "body")
-			d["body"] = fmt.Sprintf("body %q, model %q", o.Body, e.Body)
+			d["body"] = fmt.Sprintf("body %s, model %s", clip(o.Body), clip(e.Body))
 		}
 		if best < 0 || len(f) < best {
 			best, fields, detail = len(f), f, d
@@ -128,6 +128,14 @@ func (r *opsRunner) run(slots [][]uint8) (observation, []expectation, []string, 
 	}
 	f, d := diffFields(o, p, acc)
 	return o, acc, f, d
+}
+
+// clip quotes a body, abbreviating the 70 000-byte one.
+func clip(s string) string {
+	if len(s) > 120 {
+		return fmt.Sprintf("%q…(%d bytes)", s[:60], len(s))
+	}
+	return fmt.Sprintf("%q", s)
 }
 
 func has(l []string, x string) bool {
@@ -185,7 +193,11 @@ func (r *opsRunner) one(slots [][]uint8, log *os.File) {
 	if nt {
 		r.res.Nontrivial++
 		if len(r.res.Samples) < 2 && len(s) > 0 {
-			r.res.Samples = append(r.res.Samples, sample{Case: r.route.path + " " + slotsDescribe(slots), Observed: fmt.Sprintf("%+v", o)})
+			so := o
+			if len(so.Body) > 120 {
+				so.Body = clip(so.Body)
+			}
+			r.res.Samples = append(r.res.Samples, sample{Case: r.route.path + " " + slotsDescribe(slots), Observed: fmt.Sprintf("%+v", so)})
 		}
 	}
 	if o.Commits == 1 {
